@@ -314,6 +314,14 @@ func (e C20) Execute(plan interface{}, c *core.Ctx) *core.Verdict {
 					P := t.File.Plain()
 					off := 0
 					for _, sg := range segsOr(t) {
+						if sg < 0 {
+							n, err := io.Copy(w, &lib.PlainReader{Data: P[off:], Max: -sg})
+							if err != nil {
+								anyErr = true
+							}
+							off += int(n)
+							break
+						}
 						if off+sg > len(P) {
 							sg = len(P) - off
 						}
